@@ -1,6 +1,6 @@
 SPECIFICATION Spec
 CONSTANTS
-  Alphas = {"Full", "Marks6", "Emoji6", "Hangul6", "Lines6"}
+  Alphas = {"Full", "Marks6", "Emoji6", "Hangul5", "Lines5"}
   N = 5
   NFull = 3
   RankLen = 2
